@@ -45,7 +45,7 @@ def enumerated(tier):
 
 def groups(tier):
     return [('num-coefficients', ('num',)), ('derivative-scaling', ('scale',)), ('failed-flag', ('failed',)), ('initialise', ('init',)),
-            ('polynomial[m=8]', ('poly',))]
+            ('polynomial[m=8]', ('poly',)), ('acceleration-stages', ('stages',)), ('documented-defaults', ('defaults',))]
 
 
 def functions_under_contract():
@@ -291,7 +291,81 @@ def run_poly():
     return {}
 
 
+def run_stages():
+    """contract of _get_best_taylor_coefficients (the function between the radius search and the returned error estimate):
+    with nk radii there are nk-2 Richardson extrapolants; the fallback error  EPS / r^k * max|f|  is only the rounding floor
+    (it contains no truncation term), so it may be used only when fewer than three extrapolants exist.  With three or more
+    the coefficients and errors are the ones _get_best_estimate selects from dea3 of consecutive extrapolant triples, with
+    the radii rs[4:] as steps."""
+    fb = mods()['fb']
+    rng = np.random.default_rng(3)
+    m = 8
+    for nk in range(3, 10):
+        rs = list(0.5 * 1.3 ** np.arange(nk))
+        bs = [rng.normal(size=m) + 1j * rng.normal(size=m) for _ in range(nk)]
+        calls = dict(dea3=[], best=[], floor=0)
+        old_dea3, old_best = fb.dea3, fb._Limit._get_best_estimate
+
+        def dea3_spy(a, b, c):
+            calls['dea3'].append((a, b, c))
+            return old_dea3(a, b, c)
+
+        def best_spy(coefs, errs, steps, shape):
+            out = old_best(coefs, errs, steps, shape)
+            calls['best'].append((coefs, errs, steps, shape, out))
+            return out
+
+        def max_m1m2():
+            calls['floor'] += 1
+            return 1.0
+        fb.dea3 = dea3_spy
+        fb._Limit._get_best_estimate = staticmethod(best_spy)
+        try:
+            coefs, errors = fb._get_best_taylor_coefficients(bs, rs, m, max_m1m2)
+        finally:
+            fb.dea3 = old_dea3
+            fb._Limit._get_best_estimate = staticmethod(old_best)
+        ext = fb._extrapolate(bs, rs, m)
+        tag = 'G:radii=%d:' % nk
+        solve.fact(tag + 'extrapolants==radii-2', len(ext) == nk - 2)
+        if nk - 2 >= 3:
+            ok = len(calls['dea3']) == 1 and len(calls['best']) == 1 and calls['floor'] == 0
+            solve.fact(tag + 'three-or-more-extrapolants:dea3-and-best-estimate-stage-used(not-the-rounding-floor)', ok, note=str({k: (len(v) if isinstance(v, list) else v) for k, v in calls.items()}))
+            if ok:
+                a, b, c = calls['dea3'][0]
+                solve.fact(tag + 'dea3-on-consecutive-triples-of-all-extrapolants',
+                           len(a) == len(b) == len(c) == nk - 4 and all(np.array_equal(a[i], ext[i]) and np.array_equal(b[i], ext[i + 1]) and
+                                                                        np.array_equal(c[i], ext[i + 2]) for i in range(nk - 4)))
+                cf, er, steps, shape, out = calls['best'][0]
+                solve.fact(tag + 'steps-are-the-radii-rs[4:]-times-k', np.array_equal(steps, np.asarray(rs[4:])[:, None] * np.arange(m)) and tuple(shape) == (m,))
+                solve.fact(tag + 'returned-coefficients-and-errors-are-the-selected-ones', coefs is out[0] and errors is out[1].error_estimate)
+        else:
+            solve.fact(tag + 'fewer-than-three-extrapolants:last-extrapolant-with-the-rounding-floor',
+                       len(calls['dea3']) == 0 and calls['floor'] == 1 and np.array_equal(coefs, ext[-1]) and
+                       np.allclose(errors, fb.EPS / np.power(rs[2], np.arange(m)), rtol=1e-15, atol=0))
+    return {}
+
+
+def run_defaults():
+    """documented defaults of Taylor (class docstring): max_iter 30, min_iter max_iter // 2 for EVERY max_iter, explicit values kept"""
+    fb = mods()['fb']
+    bad = [mi for mi in range(1, 401) if fb.Taylor(np.exp, max_iter=mi).min_iter != mi // 2 or fb.Taylor(np.exp, max_iter=mi).max_iter != mi]
+    solve.fact('D:min_iter-defaults-to-max_iter//2-for-max_iter-in-1..400', not bad, note=str(bad[:5]))
+    t = fb.Taylor(np.exp)
+    solve.fact('D:defaults(max_iter=30,min_iter=15,n=1,r=0.0059,num_extrap=3,step_ratio=1.6)',
+               (t.max_iter, t.min_iter, t.n, t.r, t.num_extrap, t.step_ratio) == (30, 15, 1, 0.0059, 3, 1.6))
+    t = fb.Taylor(np.exp, max_iter=50, min_iter=7)
+    solve.fact('D:explicit-min_iter-kept', (t.max_iter, t.min_iter) == (50, 7))
+    doc = fb.Taylor.__doc__ or ''
+    solve.fact('D:docstring-states-these-defaults', 'default max_iter // 2' in doc and 'default 0.0059' in doc, note='contract source')
+    return {}
+
+
 def run_group(args):
+    if args[0] == 'stages':
+        return run_stages()
+    if args[0] == 'defaults':
+        return run_defaults()
     return {'num': run_num, 'scale': run_scale, 'failed': run_failed, 'init': run_init, 'poly': run_poly}[args[0]]()
 
 
